@@ -594,7 +594,8 @@ def rewrite_body(text, rules_log, intended_panics=False, keep_asserts=False, run
     return "".join(x.text for x in out)
 
 
-_SAFE_CALLS = {"local_addr", "name", "len", "kind", "display", "idx", "token", "hostname", "peer_addr", "port", "as_ref", "unwrap", "addrs"}
+_SAFE_CALLS = {"local_addr", "name", "len", "kind", "display", "idx", "token", "hostname", "peer_addr", "port", "as_ref", "unwrap", "addrs",
+               "id", "is_empty", "total", "to_string", "clone", "as_str", "get", "elapsed", "capacity"}
 
 
 def _check_log_args(args):
@@ -714,7 +715,7 @@ def _last_stmt_start(toks, bo, bc):
     return starts[-1]
 
 
-def insert_after_pattern(text, pattern, insertion, fn_name, before=False, nth=1, arm_end=False, arm_last=False):
+def insert_after_pattern(text, pattern, insertion, fn_name, before=False, nth=1, arm_end=False, arm_last=False, arm_start=False):
     """insert `insertion` right after (or before) the nth occurrence of the token sequence `pattern`
     (whitespace-insensitive).  arm_end: insert before the `}` closing the first `{` that follows the pattern.
     Used for ghost snapshots and arm-end assertions (R6)."""
@@ -727,7 +728,16 @@ def insert_after_pattern(text, pattern, insertion, fn_name, before=False, nth=1,
             seen += 1
             if seen != nth:
                 continue
-            if arm_last:
+            if arm_start:
+                # right after the `{` that opens the first block following the pattern (the arm's body, whatever
+                # surrounds the pattern: `P => {` and `Some(P) => {` alike)
+                j = s_idx[a + len(pat) - 1] + 1
+                while j < len(toks) and toks[j].text != "{":
+                    j += 1
+                if j >= len(toks):
+                    break
+                at = j + 1
+            elif arm_last:
                 j = s_idx[a + len(pat) - 1] + 1
                 while j < len(toks) and toks[j].text != "{":
                     j += 1
